@@ -808,9 +808,7 @@ def run(ctx):
                     drift.append({"op": c["op"], "what": "large table: output differs from the transcription at an undocumented point / smoothing weights", "n": c["n"]})
                 if not v["ok"]:
                     var = variant(c)
-                    key = c["op"] + (":" + var if var else "") + ":" + v["cls"]
-                    if v["cls"] not in ("rows", "flag", "value"):
-                        key += ":value"
+                    key = c["op"] + (":" + var if var else "") + ":" + ("grid:rows" if v["cls"] == "rows" else v["cls"])
                     k = v["k"]
                     row = obs["rows"][k - 1] if 0 < k <= len(obs["rows"]) else None
                     ctx.violation(key, "TLC rejects the output of a %d-point table at row %d (%s; %d rows rejected) [%s]" % (
